@@ -15,10 +15,10 @@ func (c *WebserverConfig) setRestartNeededProps() {
 }
 
 func (c *WebserverConfig) verify() error {
-	if err := verifyListenAddress("webserver.listen", c.Listen.Read()); err != nil {
+	if err := verifyListenAddress("webserver.listen", c.Listen.pending()); err != nil {
 		return err
 	}
-	if c.ApiDisabled.Read() && !c.DashboardDisabled.Read() {
+	if c.ApiDisabled.pending() && !c.DashboardDisabled.pending() {
 		// The dashboard is served through the API: the process refuses to start with this combination.
 		return fmt.Errorf("webserver.api_disabled requires webserver.dashboard_disabled")
 	}
